@@ -329,6 +329,33 @@ def monitor(ck, sc, r, stats):
 
     faults = sc.get("faults") or {}
     had_error = any(e["ev"] == "c_error" for e in r["trace"])
+    # application transactions during which error_transaction() was called
+    err_txns = set()
+    cur_k = {}
+    for e in r["trace"]:
+        if e["ev"] == "app_begin":
+            cur_k[e["inst"]] = e["k"]
+        elif e["ev"] == "c_error" and e.get("inst") in cur_k:
+            err_txns.add((e["inst"], cur_k[e["inst"]]))
+    # a transactional task that ended without having sent its request, followed by the sender's death
+    # with the KafkaError wrapper: it died in _find_coordinator
+    died_in_find_coordinator = False
+    tr = r["trace"]
+    for i, e in enumerate(tr):
+        if e["ev"] == "c_fatal" and e.get("exc") == "KafkaError":
+            j = i - 1
+            while j >= 0 and not (tr[j]["ev"] == "c_txn_done" and tr[j].get("inst") == e.get("inst")):
+                j -= 1
+            k0 = j - 1
+            sent = False
+            while k0 >= 0 and not (tr[k0]["ev"] == "c_txn_pick" and tr[k0].get("inst") == e.get("inst")
+                                   and tr[k0].get("task")):
+                if tr[k0]["ev"] == "request" and tr[k0].get("inst") == e.get("inst") and \
+                        tr[k0].get("api") in ("AddPartitionsToTxn", "AddOffsetsToTxn", "TxnOffsetCommit", "EndTxn"):
+                    sent = True
+                k0 -= 1
+            if j >= 0 and not sent:
+                died_in_find_coordinator = True
     failed_batches = [e for e in r["trace"] if e["ev"] == "c_fail"]
     visible = {}
     hidden = {}
@@ -361,7 +388,7 @@ def monitor(ck, sc, r, stats):
                      "committed-offsets-missing")
             stats["committed"] = stats.get("committed", 0) + 1
         elif t["outcome"] in ("aborted",) or (t["outcome"] in ("failed", "killed") and not t["commit_requested"]):
-            auth_err = t.get("exc") in ("TopicAuthorizationFailedError", "GroupAuthorizationFailedError")
+            auth_err = (t["inst"], t["k"]) in err_txns
             if vis_items:
                 sig = SIG_NO_ENDTXN if auth_err else "aborted-records-visible"
                 viol(f"{name}: records {vis_items} are visible to a read-committed reader", sig)
@@ -433,7 +460,7 @@ def monitor(ck, sc, r, stats):
         # a FindCoordinator request that was answered by closing the connection
         fc_drop = any(e["ev"] == "request" and e.get("api") == "FindCoordinator" and e.get("fault")
                       and e["fault"]["kind"] in ("drop_before", "drop_after") for e in r["trace"])
-        lsig = (lambda d: SIG_FINDCOORD if fc_drop else d)
+        lsig = (lambda d: SIG_FINDCOORD if (fc_drop or died_in_find_coordinator) else d)
         if r.get("unfinished"):
             viol("only retriable faults, but the application did not finish", lsig("liveness-not-finished"))
         want = sum(len(i["txns"]) for i in sc["instances"])
@@ -457,7 +484,7 @@ def build_scenarios(ck):
         scs.append(json.load(open(fn)))
     sid = 1000
     # (a) random scenarios, fault free
-    for _ in range(ck.n(30, 200)):
+    for _ in range(ck.n(30, 500)):
         scs.append(gen_scenario(rng, sid, instances=None) if False else gen_scenario(rng, sid))
         sid += 1
     return scs, sid, rng
@@ -509,7 +536,7 @@ def run(ck: Check):
     scs, sid, rng = build_scenarios(ck)
     # ---- base runs for systematic fault / kill enumeration
     bases = []
-    for j in range(ck.n(2, 6)):
+    for j in range(ck.n(2, 10)):
         b = gen_scenario(rng, sid, brokers=2 + (j % 2), partitions=2 + (j % 2), marker_delay=[0.0, 0.05][j % 2])
         b["instances"] = b["instances"][:1]
         b["instances"][0]["txns"] = [mk_txn(rng, b["partitions"], end=["commit", "abort", "commit"][q % 3])
@@ -527,8 +554,8 @@ def run(ck: Check):
     for b, br in zip(bases, base_res):
         if not br.get("ok"):
             continue
-        f1, sid = enumerate_faults(b, br, sid, lambda api: RETRIABLE_FAULTS.get(api, []), rng, ck.n(120, 1500))
-        f2, sid = enumerate_faults(b, br, sid, lambda api: OTHER_FAULTS.get(api, []), rng, ck.n(40, 400))
+        f1, sid = enumerate_faults(b, br, sid, lambda api: RETRIABLE_FAULTS.get(api, []), rng, ck.n(120, 2500))
+        f2, sid = enumerate_faults(b, br, sid, lambda api: OTHER_FAULTS.get(api, []), rng, ck.n(40, 600))
         extra += f1 + f2
         # coordinator moves and loading windows at every transactional request
         for api in ("AddPartitionsToTxn", "AddOffsetsToTxn", "EndTxn", "TxnOffsetCommit"):
@@ -571,7 +598,7 @@ def run(ck: Check):
             number_offsets(sc)
             extra.append(sc)
     # ---- random multi-fault plans
-    for _ in range(ck.n(40, 600)):
+    for _ in range(ck.n(40, 2500)):
         sc = gen_scenario(rng, sid)
         sid += 1
         for _f in range(rng.choice([1, 2, 3])):
